@@ -395,6 +395,25 @@ fn main() {
             s.count(&format!("ssi.{},{}", p.0, p.1));
         }
     }
+    // user codes with the symmetric numbering whose two invariants DIFFER (every table entry has s0 = s1, which hides any
+    // confusion between the two classes): 9_46 from the repository's own test; each theory on its own terms
+    for (nm, code) in [("9_46-user-code", vec![[18usize,8,1,7],[13,6,14,7],[12,2,13,1],[8,18,9,17],[5,14,6,15],[2,12,3,11],[16,10,17,9],[15,4,16,5],[10,4,11,3]])] {
+        let Some(l) = guard(|| InvLink::sinv_knot_from_code(code.clone())) else { s.oracle(false, "sinv_knot_from_code accepts a symmetric code", nm, "panic"); continue };
+        let m = l.mirror();
+        let ro = guard(|| reordered(&mut r.fork(), &l));
+        for red in [false, true] {
+            let tag = format!("{} reduced={}", nm, red);
+            let Some(p) = ssi_all(&l, red) else { s.oracle(false, "ssi_invariants terminates without panic on a strongly invertible knot diagram", &tag, "panic/timeout"); continue };
+            s.oracle(p.0 <= p.1, "s0 <= s1", &tag, &format!("{:?}", p));
+            s.oracle((p.1 - p.0).rem_euclid(2) == 0, "s0 = s1 mod 2", &tag, &format!("{:?}", p));
+            match ssi_all(&m, red) { Some(q) => s.oracle(q == (-p.1, -p.0), "mirroring negates and swaps (s0, s1)", &tag, &format!("{:?} vs mirror {:?}", p, q)), None => s.oracle(false, "ssi_invariants terminates without panic", &tag, "panic/timeout") }
+            if let Some(x) = &ro { match ssi_all(x, red) { Some(q) => s.oracle(q == p, "ssi does not depend on the order in which crossings are listed", &tag, &format!("{:?} vs {:?}", p, q)), None => s.oracle(false, "ssi_invariants terminates without panic", &tag, "panic/timeout") } }
+            let (w, rr) = (l.link().writhe(), l.link().seifert_circles().len() as i32);
+            let (d0, d1) = ((p.0 - w + rr - 1) / 2, (p.1 - w + rr - 1) / 2);
+            s.case(&format!("ssi {} {} {} {}", d0, d1, w, rr), &format!("{} {}", p.0, p.1), true);
+            s.count(&format!("ssi.user.{},{}", p.0, p.1));
+        }
+    }
     // involution data (inv_e / inv_x / mirror / sinv_knot_from_code) against the code model Model/C19Inv.lean
     inv_stream(&mut s, &mut r, thorough, cone_max);
     s.finish();
